@@ -99,7 +99,7 @@ REG = {
         "assumptions": _ASSUME,
     },
     "C15": {
-        "module": "Props.C15",
+        "module": ["Props.C15", "Props.C15Gen"],
         "suites": [("ns", (2500, 40000))],
         "rule": "80% file-name cases: 1-6 files with well-formed names (port-ID present/absent, versions up to 255, both extensions, depth 0-5, namespace components equal "
                 "to root names), 11% malformed shapes (wrong arity, non-numeric, empty components, dots in directories), 2% names only int() accepts, 5% non-definition "
